@@ -134,6 +134,43 @@ func ruleRevOrder(c *Ctx) []Obligation {
 			}
 		}
 	}
+	// what is read from disk: the exact revision first, the bare name only as the fall-back of a failed first read
+	if len(reads) > 0 {
+		con := "FindModule: the disk is asked for the exact revision first, for the bare name only when that fails"
+		var firstRead ssa.CallInstruction
+		for _, r := range reads {
+			if firstRead == nil || dominates(r, firstRead) {
+				firstRead = r
+			}
+		}
+		arg := firstRead.Common().Args[len(firstRead.Common().Args)-1]
+		switch {
+		case !isRevKey(arg):
+			obs = append(obs, bad(R, con, c.InstrPos(firstRead), "the first read from disk does not ask for name@revision-date: an import with a revision-date loads whatever file the bare name finds, although the dated file is there"))
+		default:
+			okFall := true
+			for _, r := range reads {
+				if r == firstRead {
+					continue
+				}
+				// a later read is a fall-back: under `first read failed`
+				under := false
+				for _, g := range guardsAt(r.Block()) {
+					if x, isEq, okn := nilTest(g.Cond); okn && x == firstRead.Value() && isEq != g.Branch {
+						under = true
+					}
+				}
+				if !under || isRevKey(r.Common().Args[len(r.Common().Args)-1]) {
+					okFall = false
+				}
+			}
+			if okFall {
+				obs = append(obs, ok(R, con, c.InstrPos(firstRead), "Read(name@rev); on error Read(name)"))
+			} else {
+				obs = append(obs, bad(R, con, c.InstrPos(firstRead), "a second read is not the bare-name fall-back of a failed exact read"))
+			}
+		}
+	}
 	// after the disk read the exact revision is preferred again
 	if len(reads) > 0 {
 		con := "FindModule: after reading from disk the exact revision is returned when it is there, the bare name only otherwise"
@@ -247,8 +284,22 @@ func ruleRevOrder(c *Ctx) []Obligation {
 		if bo, okb := cond.(*ssa.BinOp); okb && bo.Op == token.LSS && br {
 			lc, okc := bo.X.(*ssa.Call)
 			if okc && lc.Call.StaticCallee() != nil && lc.Call.StaticCallee().Name() == "FullName" && bo.Y == fullKey {
-				older = true
-				continue
+				// it is the holder of the bare name whose revision is compared, not the module being added (whose
+				// full name is the other operand: that comparison is constant)
+				holder := false
+				if len(lc.Call.Args) > 0 {
+					rv := lc.Call.Args[0]
+					if ex, isE := rv.(*ssa.Extract); isE {
+						rv = ex.Tuple
+					}
+					if l, isL := rv.(*ssa.Lookup); isL && sameKey(l.Index, bareKey) {
+						holder = true
+					}
+				}
+				if holder {
+					older = true
+					continue
+				}
 			}
 		}
 		if bo, okb := cond.(*ssa.BinOp); okb && bo.Op == token.GTR && br && bo.X == fullKey {
